@@ -15,6 +15,8 @@
 # siblings (bin-extra, libexec, share/locale-archive ...), with every single documented tag selected; the expected
 # selection comes from the tag list of Installing.md (c11model.documented_tags).
 # Family L: install_subdir() trees that hold a symlink to a directory x follow_symlinks {unset, true, false}.
+# Family Y: install_data() of a source that is a symlink x follow_symlinks x rename x {target kept, target removed after setup}.
+# Family D: install_dir spelled with '..' (inside the tree, climbing above the root) x the kinds of rule that take an install_dir.
 # Family N: the shape of the NAME given to install_subdir() (one / several components, trailing slash, last component repeated
 # earlier, space and non-ASCII in a non-last component, call in a nested meson.build) x strip_directory {unset, false, true} x
 # exclude lists (entries relative to the installed directory, decoys relative to anything else) x install_dir kind; the
@@ -579,7 +581,10 @@ class Runner:
             # a family about one class of input: the key names the class and the symptom (not the rule variant)
             for r in self.w.proj.rules:
                 key = key.replace(':' + r.rid, '')
-            key = 'C11:%s:%s' % (self.w.proj.key_class, key.split(':', 1)[1])
+            sym = key.split(':')[2:]          # without the action: one defect shows in every later step of the history
+            if sym[0] == 'outside':
+                sym = ['outside-destdir']
+            key = 'C11:%s:%s' % (self.w.proj.key_class, ':'.join(sym))
         self.res['viol'].append((key, text, rep))
 
     # -- aborted installs --------------------------------------------------------------------------------------
@@ -1671,6 +1676,20 @@ def main():
                'install_subdir name shapes: a cell of shape x strip_directory x exclude lists, a shape x name style or a shape x install_dir kind is missing')
     ck.require(not full_n or (n_multi_kept >= 2 * len(M.MULTI_SHAPES) and n_compares >= 3 * len(ncells)),
                'install_subdir with a name of several components and strip_directory false was not installed and compared')
+    cmp_of = {}
+    for j in jobs:
+        if not results[j['id']]['internal']:
+            c = cmp_of.setdefault(j['family'], {'install_steps_compared': 0, 'rejected_at_setup': 0})
+            c['install_steps_compared'] += results[j['id']]['tree_compares']
+            c['rejected_at_setup'] += results[j['id']]['rejected_at_setup']
+    ck.part('symlink_sources_of_install_data', cells_follow_x_rename_x_target=['/'.join(c) for c in M.LINK_CELLS],
+            install_steps_compared=cmp_of.get('Y', {}).get('install_steps_compared', 0), **fam.get('Y', {}))
+    ck.part('install_dir_with_dotdot', kinds_of_rule=list(M.DOTDOT_KINDS), spellings=list(M.DOTDOT_SPELLINGS), **cmp_of.get('D', {}), **fam.get('D', {}))
+    for f, ncell in (('Y', len(M.LINK_CELLS)), ('D', len(M.DOTDOT_KINDS) * len(M.DOTDOT_SPELLINGS))):
+        if not ck.args.only or f in ck.args.only.split(','):
+            c = cmp_of.get(f, {'install_steps_compared': 0, 'rejected_at_setup': 0})
+            ck.require(fam.get(f, {}).get('jobs', 0) >= ncell and c['install_steps_compared'] + c['rejected_at_setup'] >= ncell,
+                       'family %s: a cell is missing or nothing was installed and compared' % f)
     if ck.thorough and full:
         ck.require(tot['strace_runs'] > 10 and tot['strace_mutations'] > 100, 'strace slice did not observe mutations')
     ck.assume('the reference install model (lib/verif/c11model.py) is my transcription of Installing.md, the install_* reference pages, '
@@ -1692,6 +1711,10 @@ def main():
               'component is the one before the slash; exclude entries that lead nowhere when read relative to the installed directory exclude '
               'nothing ("Names are interpreted as paths relative to the subdir_name location"); a directory whose only file is excluded is '
               'still installed (empty)')
+    ck.assume('install_dir with ".." components: the directory meant is the lexical normalisation of the path (share/q/../r = share/r; '
+              '/opt/../../x = /x, re-rooted DESTDIR/x); whether the directory named before a ".." is created on the way is not specified '
+              '(optional, but if created it must be logged); a build definition refused at setup counts as rejected and is not compared; '
+              'what a FOLLOWED symlink source whose target vanished after setup installs is not specified (not generated)')
     ck.assume('runs as root: chown to uid/gid 0 is a no-op and setuid bits survive chmod')
     for k in COUNTERS:
         if k not in ('states', 'transitions'):
@@ -1712,7 +1735,9 @@ def main():
                    'follow_symlinks {unset, true, false} through the linear history; install_subdir name shapes: %d shapes of the name (one component, '
                    'several, trailing slash, last component repeated, space/non-ASCII in a non-last component, call in a nested meson.build) x '
                    'strip_directory {unset, false, true} x {no exclusions, exclude lists relative to the installed directory with decoys} x install_dir '
-                   '{relative, absolute}%s through the linear history. states = '
+                   '{relative, absolute}%s through the linear history; install_data of a symlink x follow_symlinks {unset, true, false} x {same name, '
+                   'rename} x {target kept, target removed after setup (follow false)}; install_dir with .. components {inside the tree, climbing '
+                   'above the root} x {relative, absolute} x {install_data, install_subdir, install_emptydir, install_symlink}. states = '
                    'distinct DESTDIR trees per run, transitions = install/uninstall commands executed, every one compared with the model'
                    % (len(M.RULE_IDS),
                       'style x mode x umask x prefix x DESTDIR kind = 162 configurations' if ck.thorough else 'the 9 rows of a pairwise-covering orthogonal array over name style, install_mode, install_umask, DESTDIR kind; prefix / initial tree / DESTDIR mechanism alternate with the index',
